@@ -55,6 +55,7 @@ type Contract struct {
 	AssumePre     []string // callees whose preconditions are assumed, not proved, at this function's call sites (listed in the evidence)
 	AssumeUnreach []string // explicit panic sites (by a fragment of their source text) assumed unreachable; listed in the evidence
 	GhostSets     []string // "name = expr": ghost counter updates performed by a call to this function
+	DynPreserves  []string // places assumed unchanged by calls through function values made by this function (listed in the evidence)
 	Lemmas        []string // ghost lemma calls instantiated before the postconditions are checked
 	Asserts       []AssertClause // "assert @label after <source fragment> :: expr": proof obligation after the first statement containing the fragment
 	LoopInv       []Clause // default invariants for every for-loop without own contract
@@ -81,8 +82,8 @@ var blockRe = regexp.MustCompile(`(?s)/\*@(.*?)@\*/`)
 var clauseKeywords = map[string]bool{
 	"serves": true, "requires": true, "ensures": true, "modifies": true, "decreases": true,
 	"loop": true, "flag": true, "pure": true, "trusted": true, "inline": true, "opaque": true,
-	"nopanic": true, "maypanic": true, "unroll": true, "abstract": true, "allocates": true, "replaytext": true, "wrap": true, "overflow": true, "norac": true, "stages": true,
-	"split": true, "assume-unreachable": true, "ghostset": true, "assumes": true, "assumepre": true, "lemma": true, "assert": true, "except": true, "loopinvariant": true, "loopdecreases": true, "notemplate": true,
+	"nopanic": true, "maypanic": true, "assume-safety": true, "dyncalls-pure": true, "unroll": true, "abstract": true, "allocates": true, "replaytext": true, "wrap": true, "overflow": true, "norac": true, "stages": true,
+	"split": true, "assume-unreachable": true, "ghostset": true, "assumes": true, "assumepre": true, "lemma": true, "assert": true, "dyncall-preserves": true, "except": true, "loopinvariant": true, "loopdecreases": true, "notemplate": true,
 }
 
 // parseContracts reads all /*@ ... @*/ blocks of a contracts file.
@@ -190,6 +191,12 @@ func parseBlock(body string) (*Contract, error) {
 			for _, e := range strings.Split(rest, ",") {
 				if e = strings.TrimSpace(e); e != "" {
 					c.AssumePre = append(c.AssumePre, e)
+				}
+			}
+		case "dyncall-preserves":
+			for _, e := range splitTop(rest, ',') {
+				if e = strings.TrimSpace(e); e != "" {
+					c.DynPreserves = append(c.DynPreserves, e)
 				}
 			}
 		case "lemma":
@@ -599,6 +606,7 @@ func applyTemplates(contracts []*Contract, funcs []string) []*Contract {
 			c.Assumes = append(pre(t.Assumes), c.Assumes...)
 			c.GhostSets = append(c.GhostSets, t.GhostSets...)
 			c.Lemmas = append(c.Lemmas, t.Lemmas...)
+			c.DynPreserves = append(c.DynPreserves, t.DynPreserves...)
 			c.LoopInv = append(pre(t.LoopInv), c.LoopInv...)
 			if len(c.LoopDec) == 0 {
 				c.LoopDec = t.LoopDec
